@@ -2789,3 +2789,14 @@ VARIANTS.append(dict(prop="C06", id="r13/broken-timing-steers-sampling", kind="M
 for _p in _ALL:
     VARIANTS.append(dict(prop=_p, id="r13/benign-timing-logged", kind="B", rule="", patch=_os.path.join(_HP, "benign-timing-logged.diff"),
                          note="a duration measured with time.perf_counter() and written to the log only"))
+for _p in ("C05", "C06"):
+    VARIANTS.append(dict(prop=_p, id="r13/probe-process-pool", kind="M", rule="", expect_code=2, patch=_os.path.join(_HP, "probe-process-pool.diff"),
+                         note="the jobs handed to a ProcessPoolExecutor: the thread-pool assumption of the rules is given up, refused"))
+VARIANTS.append(dict(prop="C05", id="r13/probe-env-n-samples", kind="M", rule="R-C05-3", patch=_os.path.join(_HP, "probe-env-n-samples.diff"),
+                     note="the size of the first batch read from an environment variable"))
+VARIANTS.append(dict(prop="C06", id="r13/probe-seed-in-init", kind="M", rule="R-C06-5", patch=_os.path.join(_HP, "probe-seed-in-init.diff"),
+                     note="np.random.seed called by the sampler's initialisation"))
+for _p, _r, _patch, _what in (("C14", "R-C14-2", "probe-copy-shallow", "copy() shares the unit sets with the original (shallow mapping copy)"),
+                              ("C13", "R-C13-3", "probe-units-sortedlist", "an annotator's units kept in a SortedList: duplicates are stored twice"),
+                              ("C10", "R-C10-4", "probe-copy-window-dropped", "copy() no longer carries best_window_size")):
+    VARIANTS.append(dict(prop=_p, id=f"r13/{_patch}", kind="M", rule=_r, patch=_os.path.join(_HP, f"{_patch}.diff"), note=_what))
